@@ -143,7 +143,8 @@ func crashed(g *G, r interface{}) {
 	w.mu.Unlock()
 	w.logf("PANIC on %s: %v", g.Name, r)
 	if g.Node != nil {
-		w.KillNode(g.Node, "panic:"+g.Name)
+		n := g.Node
+		w.Post(w.Now(), "panic:"+n.Name+":"+g.Name, func() { w.KillNode(n, "panic:"+g.Name) })
 	}
 }
 
@@ -492,10 +493,17 @@ func ExitCurrentNode(code int) {
 	w := g.Node.w
 	w.logf("node %s exit(%d) by %s", g.Node.Name, code, g.Name)
 	w.trace("exit %s %d", g.Node.Name, code)
-	w.KillNode(g.Node, "exit:"+g.Name)
-	w.mu.Lock()
-	g.Node.Exit = code
-	w.mu.Unlock()
+	// The node dies at the next quiescent point of this instant, not in the middle of the step:
+	// its other goroutines that are runnable right now finish what they are doing (up to their next
+	// blocking point) whatever the Go scheduler's order, so the set of things the process did before
+	// it died is a function of the seed.
+	n := g.Node
+	w.Post(w.Now(), "exit:"+n.Name+":"+g.Name, func() {
+		w.KillNode(n, "exit:"+g.Name)
+		w.mu.Lock()
+		n.Exit = code
+		w.mu.Unlock()
+	})
 	parkForever(w)
 }
 
